@@ -103,6 +103,21 @@ def rule_queue(m, rid):
     for q in QUEUE_TABLE:
         if q not in seen:
             r.error("%s no longer touches the item queue (anchor vanished)" % q)
+    # put_item is the consumer's give-back (it pushes to the FRONT): the reader's own code, which discovers items in source order, never
+    # calls it on itself -- a comment found between continuation lines would overtake the comments queued before it
+    r.instances += 1
+    own_calls = []
+    for (p, q), f in sorted(m.funcs.items()):
+        if p != path or q.endswith(".put_item"):
+            continue
+        for c in A.calls(f.node):
+            if A.text(c.func) == "self.put_item":
+                own_calls.append((q, f, c))
+    r.ob(not own_calls, "no method of the reader calls self.put_item()")
+    for q, f, c in own_calls:
+        r.fail("%s|self-put-item" % q, "%s hands an item it has just discovered to self.put_item(), the consumer's give-back operation, which "
+               "inserts at the front of the queue: items discovered earlier and still queued (the comments of the same statement) come "
+               "out after it, in the wrong order" % q, m.loc(f, c))
     # _next: the split parts are reversed before being pushed left one by one (or extendleft of the reversed list)
     nx = reader_func(m, "_next")
     r.instances += 1
@@ -1206,6 +1221,10 @@ FIXED_CONT_TABLE = [
     ("* starred", None, "* starred"),
     ("! bang", None, "! bang"),
     ("", None, ""),
+    # inside a character literal that is continued over the lines: a comment or blank line between them does not end the literal
+    ("c a comment", None, "c a comment", "'", "'"),
+    ("", None, "", '"', '"'),
+    ("     &rest of it'", "rest of it'", None, "'", "'"),
 ]
 
 
@@ -1227,7 +1246,10 @@ def rule_fixed_continuation(m, rid):
     ev = RR.evaluator_with_funcs(m, RF)
     bad = []
     try:
-        for row, want_text, want_comment in FIXED_CONT_TABLE:
+        for entry in FIXED_CONT_TABLE:
+            row, want_text, want_comment = entry[:3]
+            qc_in = entry[3] if len(entry) > 3 else None
+            want_qc = entry[4] if len(entry) > 4 else None
             r.instances += 1
             lines = ["      x = 1"]
             queued = []
@@ -1235,8 +1257,9 @@ def rule_fixed_continuation(m, rid):
             me = PE.Obj({"linecount": 9, "_format": fmt, "format": fmt, "fifo_item": PE.Obj({"append": queued.append}),
                          "comment_item": lambda text, a=None, b=None, inline_comment=False: ("comment", text),
                          "handle_inline_comment": lambda l_, n_, q_=None, b_=True: (l_, q_, False),
-                         "get_next_line": lambda *a, **k: None})
-            env = {"self": me, "lines": lines, "get_single_line": lambda: row, "isstrict": False, "qc": None, "have_comment": False,
+                         "get_next_line": lambda *a, **k: None, "format_message": lambda *a, **k: "", "warning": lambda *a, **k: None,
+                         "info": lambda *a, **k: None, "error": lambda *a, **k: None})
+            env = {"self": me, "lines": lines, "get_single_line": lambda: row, "isstrict": False, "qc": qc_in, "have_comment": False,
                    "endlineno": 0, "handle_inline_comment": lambda l_, n_, q_=None, b_=True: (l_, q_, False), "startlineno": 8,
                    "next_line": row}
             try:
@@ -1245,7 +1268,10 @@ def rule_fixed_continuation(m, rid):
                 pass
             got_text = "".join(lines[1:]) if len(lines) > 1 else None
             got_comment = queued[0][1] if queued else None
-            ok = got_text == want_text and got_comment == want_comment
+            ok = got_text == want_text and got_comment == want_comment and (len(entry) <= 3 or env.get("qc") == want_qc)
+            if len(entry) > 3 and env.get("qc") != want_qc:
+                got_comment = "%r; open-literal state %r -> %r" % (got_comment, qc_in, env.get("qc"))
+                want_comment = "%r; open-literal state %r -> %r" % (want_comment, qc_in, want_qc)
             r.ob(ok, "%r -> text %r, comment %r" % (row, got_text, got_comment))
             if not ok:
                 bad.append((row, got_text, got_comment, want_text, want_comment))
